@@ -195,7 +195,10 @@ impl Drop for LogSuppressLock {
         verif::gate("SuppressRelease");
         let mut lock = CURRENT_LOG.write().unwrap();
         if let Some(log) = lock.as_mut() {
-            log.suppress_count -= 1;
+            // The current log may be a different one than the one this guard was taken
+            // under (`log_finish` + `log_start` on another thread in between), with a
+            // count of zero: never underflow.
+            log.suppress_count = log.suppress_count.saturating_sub(1);
         }
         #[cfg(prql_verif)]
         verif::event("SuppressRelease", &lock);
